@@ -49,7 +49,7 @@ Proof. exact safe_sound. Qed.
    although b is modified (C19_semantics_needs_po below is that execution): it assumed
    that an object that existed before the call only holds objects of its own region
    even after the function itself had stored into it.  Model/Effects.v now records what
-   may be stored into pre-existing objects ([po], checked as a post-fixpoint by
+   may be stored into pre-existing objects, by field ([po], checked as a post-fixpoint by
    [store_ok] like the rest of the abstract heap) and loads through parameters see it.
    Verdicts of [safe] are unchanged by the repair (po is empty when nothing
    pre-existing is written); only reports of functions that do store references into
